@@ -130,6 +130,22 @@ Proof.
 Qed.
 Print Assumptions C06_activation_partial.
 
+(* _abort_flow called with the optional keyword restart_flow=False (a tree may pass it for an
+   activated flow that fails before it ever waited): children stop and the whole-state relation
+   behind C06_stop_once / C06_frame hold unchanged, and no restart of f is emitted. *)
+Theorem C06_abort_without_restart :
+  (forall rk r n s f d s',
+     ranked rk s -> abort_top r n s f d = Ok s' -> proceeds s f d = true -> lv s f = true ->
+     lv s' f = false /\ forall x, started_by s f x -> lst s' x = false) /\
+  (forall rk r n (R A : uid -> Prop) s f d s',
+     ranked rk s -> closed R s -> owns R A s -> R f -> abort_top r n s f d = Ok s' -> Srel R A s s') /\
+  (forall rk n s f d s',
+     ranked rk s -> abort_top false n s f d = Ok s' ->
+     exists delta, out s' = out s ++ delta /\ forall src v, ~ In (ERestart f src v) delta) /\
+  (forall n s f d, abort_top true n s f d = abort n s f d).
+Proof. exact (conj abort_top_children_stop (conj abort_top_srel (conj abort_top_no_restart abort_top_true))). Qed.
+Print Assumptions C06_abort_without_restart.
+
 (* out of fuel = the children relation is not well-founded *)
 Theorem C06_fuel_sufficient :
   (forall rk n s f d, ranked rk s -> (rk f < n)%nat -> abort n s f d <> Err EFuel) /\
